@@ -22,6 +22,8 @@ EXPLANATION = (
     "every tag argument that describes the frame reads the frame being written. "
     "File layout arithmetic (offsets inside the file, non-overlap, JSON text) is "
     "numeric and is not decided.")
+EXPLANATION += (' R-TIFF-LAYOUT: directory / pixel / string sections ordered, aligned, non-overlapping (linear lower bounds, congruences); tags and bookkeeping agree with the writes; packet walk, write_ extent, metadata on the first frame, terminator, metadata.json extent, StringSection reserve/reset (linear domain with allocation ghost). STALE-CURSOR as in C14.')
+
 
 
 def sample_format_exhaustive(prog, res):
